@@ -7,6 +7,7 @@ import (
 	"sort"
 	"strconv"
 	"strings"
+	"sync/atomic"
 	"time"
 
 	"github.com/innovationb1ue/RedisGO/config"
@@ -14,7 +15,7 @@ import (
 
 func init() { subcmds["seq"] = seqCmd }
 
-const replyTimeout = 4 * time.Second
+const replyTimeout = 3 * time.Second
 
 // seqCmd: programs file
 //
@@ -23,7 +24,7 @@ const replyTimeout = 4 * time.Second
 //	U <c> <ch>               ChanMap.UnSubscribe of c's subscription to ch (API level: the server has no UNSUBSCRIBE command)
 //	P <p> <ch> <msg>         PUBLISH on connection p
 //	D <c>                    the client closes connection c; wait until Manager.Handle returned
-//	K <c>                    the server side of c is closed under the server's feet (a dead connection)
+//	K <c>                    connection c dies: from now on the server's writes to it fail, its reads block
 //	END
 //
 // trace file: CASE / OP ... (one per model operation) / RECV <c> <hex> / ERR <text> / END
@@ -49,6 +50,7 @@ func seqCmd(args []string) error {
 	sc.Buffer(make([]byte, 1<<20), 1<<26)
 	var cur [][]string
 	id := ""
+	errs := 0
 	for sc.Scan() {
 		f := strings.Fields(sc.Text())
 		if len(f) == 0 {
@@ -62,9 +64,15 @@ func seqCmd(args []string) error {
 			// the line is on disk before the case runs: a crash of the process names the case
 			fmt.Fprintf(out, "CASE %s\n", id)
 			out.Sync()
-			runSeqCase(cfg, cur, out)
+			if !runSeqCase(cfg, cur, out) {
+				errs++
+			}
 			fmt.Fprintf(out, "END\n")
 			out.Sync()
+			if errs >= 2 {
+				// every further case would wait for its time-outs too: the verdict is known
+				return nil
+			}
 		default:
 			cur = append(cur, f)
 		}
@@ -72,11 +80,11 @@ func seqCmd(args []string) error {
 	return sc.Err()
 }
 
-func runSeqCase(cfg *config.Config, prog [][]string, out *os.File) {
+func runSeqCase(cfg *config.Config, prog [][]string, out *os.File) bool {
 	env, err := newSrvEnv(cfg)
 	if err != nil {
 		fmt.Fprintf(out, "ERR listen: %v\n", err)
-		return
+		return false
 	}
 	clients := map[int]*client{}
 	get := func(s string) (*client, error) {
@@ -139,6 +147,20 @@ loop:
 				fail = fmt.Sprintf("op %d PUBLISH: %v", i, err)
 				break loop
 			}
+			for _, k := range clients {
+				if atomic.LoadInt32(&k.srv.failed) == 1 && !k.reaped {
+					// Send met a dead connection and closed it: its handler ends, its context is
+					// cancelled, its subscriptions are released (asynchronously; give them a moment)
+					select {
+					case <-k.done:
+					case <-time.After(replyTimeout):
+						fail = fmt.Sprintf("op %d: Manager.Handle of dead connection %d did not return", i, k.id)
+						break loop
+					}
+					time.Sleep(2 * time.Millisecond)
+					k.reaped = true
+				}
+			}
 		case "D", "K":
 			fmt.Fprintf(out, "OP %s %d\n", f[0], c.id)
 			// everything written to c so far is read before the connection goes away
@@ -146,21 +168,18 @@ loop:
 				fail = fmt.Sprintf("op %d barrier: %v", i, err)
 				break loop
 			}
-			if f[0] == "D" {
-				c.conn.Close()
-			} else {
-				c.srv.Close()
-			}
 			c.closed = true
+			if f[0] == "K" {
+				// from now on writes to c fail; the server does not know yet
+				atomic.StoreInt32(&c.srv.dead, 1)
+				break
+			}
+			c.conn.Close()
 			select {
 			case <-c.done:
 			case <-time.After(replyTimeout):
 				fail = fmt.Sprintf("op %d: Manager.Handle did not return after the connection was closed", i)
 				break loop
-			}
-			if f[0] == "K" {
-				c.waitEOF(replyTimeout)
-				c.conn.Close()
 			}
 		default:
 			fail = "bad program line " + strings.Join(f, " ")
@@ -201,4 +220,5 @@ loop:
 		fmt.Fprintf(out, "ERR handlers still running after all connections were closed\n")
 	}
 	env.shutdown()
+	return fail == ""
 }
